@@ -17,6 +17,27 @@ CH_NOTE = ("Trusted: CPython, CrossHair 0.0.110's models of int/bool/str primiti
            "replayed under /venv/bin/python without CrossHair before it is reported.")
 
 CLAIMS = {
+    'C11': dict(
+        engine='CH',
+        technique='solver-driven path exploration with CrossHair/z3 (finite-choice inputs fixed by solver-decided forks, '
+                  'exhaustion certified by the solver) of the real comment-block parser, validators and message logger on '
+                  'comment texts assembled from a vocabulary of malformed lines; counterexamples replayed concretely',
+        category='model_checking',
+        text='Comment blocks are assembled from 30 first lines and 71 following lines - unbalanced, nested and adjacent '
+             'parentheses, stray and doubled colons, missing names, duplicate parameters and tags, unknown annotations and '
+             'options, wrong option counts, deprecated tag-style annotations, old return/varargs spellings, misplaced '
+             'parts, text without asterisk, tabs, non-ASCII, embedded start/end tokens - plus 24 degenerate texts (empty, '
+             'one-line, unterminated, code around the tokens, CR line ends, NUL, 40-fold parentheses), in every '
+             'combination of a first line with 0-2 following lines (thorough: 3) and LF/CRLF, and parsed between two '
+             'good blocks by the real parser: nothing is raised (SystemExit included), both good blocks come back intact, '
+             'every diagnostic carries a position inside its block, every diagnostic with a caret quotes exactly the '
+             'source line it names with the caret inside it, and the real MessageLogger counts every diagnostic whether '
+             'display is on or suppressed.',
+        design_ref='DESIGN.md section 4, C11',
+        note=CH_NOTE + ' Finite-choice inputs are fixed by solver-decided binary search (vlib/sym.py). Arbitrary strings '
+             'are outside the bounds; exemptions as in the statement (opening token not alone on its line, deprecated '
+             'tag-style annotations for carets). "A malformed annotation is ignored rather than half-applied" is checked '
+             'only through the good-block and position oracles, not by a separate model of partial application.'),
     'C10': dict(
         engine='CH',
         technique='solver-driven path exploration with CrossHair/z3 (finite-choice inputs fixed by solver-decided forks, '
